@@ -306,6 +306,10 @@ def _dfs_iter_tree(
       yield from _dfs_iter_tree(v, parent_key_path.at(Index(i)))
   elif parent_key_path:
     yield Key(parent_key_path)
+  elif hasattr(data, '__array__'):
+    # An array is a leaf, its truth value is ambiguous with multiple elements.
+    if np.size(data):
+      yield Key().SELF
   elif data:
     yield Key().SELF
 
